@@ -1461,3 +1461,72 @@ SEEDS["C20_sentinel_wrong_name"] = ("C20", [(A, '_anonymous_dim = _Sentinel("_an
 SEEDS["C20_sentinel_no_deepcopy"] = ("C20", [(A, """    def __deepcopy__(self, memo):
         return self
 """, "")], "C20.5")
+
+# ------------------------------------------------------------------------- C08
+SEEDS["C08_flatten_without_is_leaf"] = ("C08", [(P, "leaves, structure = jtu.tree_flatten(obj, is_leaf=is_flatten_leaftype)", "leaves, structure = jtu.tree_flatten(obj)")], "C08.2")
+SEEDS["C08_accept_on_first_matching_leaf"] = ("C08", [(P, """                if not is_check_leaftype(leaf):
+                    return False
+            else:""", """                if is_check_leaftype(leaf):
+                    return True
+            else:""")], "C08.3")
+SEEDS["C08_failing_leaf_ignored"] = ("C08", [(P, """                if not is_check_leaftype(leaf):
+                    return False
+            else:""", """                if not is_check_leaftype(leaf):
+                    continue
+            else:""")], "C08.3")
+SEEDS["C08_skip_none_like_leaves"] = ("C08", [(P, """        for leaf_index, leaf in enumerate(leaves):
+            if cls.structure is None:""", """        for leaf_index, leaf in enumerate(leaves):
+            if leaf is None:
+                continue
+            if cls.structure is None:""")], "C08.3")
+SEEDS["C08_none_rejected"] = ("C08", [(P, """        if obj is None:
+            return True
+""", "")], "C08.1")
+SEEDS["C08_bare_pytree_rejects"] = ("C08", [(P, """        if not hasattr(cls, "leaftype"):
+            return True  # Just `isinstance(x, PyTree)`""", """        if not hasattr(cls, "leaftype"):
+            return False""")], "C08.1")
+SEEDS["C08_leaf_isinstance_only"] = ("C08", [(P, """            @typechecked
+            def accepts_leaftype(x: cls.leaftype):
+                pass""", """            def accepts_leaftype(x: cls.leaftype):
+                if not isinstance(x, cls.leaftype):
+                    raise TypeError""")], "C08.4")
+SEEDS["C08_leaf_predicate_catches_everything"] = ("C08", [(P, """                except TypeError:
+                    return False
+                else:
+                    return True""", """                except Exception:
+                    return False
+                else:
+                    return True""")], "C08.4")
+SEEDS["C08_separate_flatten_predicate"] = ("C08", [(P, "            is_flatten_leaftype = is_check_leaftype = is_leaftype", """            is_check_leaftype = is_leaftype
+
+            def is_flatten_leaftype(x):
+                return False
+""")], "C08.2")
+SEEDS["C08_any_predicates_swapped"] = ("C08", [(P, """            def is_flatten_leaftype(x):
+                return False
+
+            def is_check_leaftype(x):
+                return True""", """            def is_flatten_leaftype(x):
+                return True
+
+            def is_check_leaftype(x):
+                return True""")], "C08.2")
+SEEDS["C08_leaves_in_fresh_context"] = ("C08", [(P, """            @typechecked
+            def accepts_leaftype(x: cls.leaftype):
+                pass""", """            from ._decorator import jaxtyped
+
+            @jaxtyped(typechecker=typechecked)
+            def accepts_leaftype(x: cls.leaftype):
+                pass""")], "C08")
+SEEDS["C08_no_restore_on_reject"] = ("C08", [(P, PT_FAIL, """        else:
+            return False""")], "C08.6")
+SEEDS["C08_flatten_flag_not_set"] = ("C08", [(P, """        set_treeflatten_memo()
+        try:""", """        try:""")], "C08.7")
+SEEDS["C08_flatten_other_object"] = ("C08", [(P, "leaves, structure = jtu.tree_flatten(obj, is_leaf=is_flatten_leaftype)", "leaves, structure = jtu.tree_flatten((obj,), is_leaf=is_flatten_leaftype)")], "C08.2")
+TWINS["C08_twin_positive_test"] = ("C08", [(P, """                if not is_check_leaftype(leaf):
+                    return False
+            else:""", """                if is_check_leaftype(leaf):
+                    pass
+                else:
+                    return False
+            else:""")])
